@@ -179,6 +179,26 @@ class Session:
             a.action_quit_dialog()
         elif key == "s":
             a.action_save()
+        elif key in ("s!", "s!full"):
+            # [S] while the disk refuses: "s!" a read-only tree (the rename to .old and the open for writing both fail with
+            # EACCES, the old file stays), "s!full" a full disk (the file is truncated, the first write fails with ENOSPC)
+            import errno
+
+            from . import simfs
+
+            conf = self.env["KCONFIG_CONFIG"]
+            fs = simfs.SimFS(os.path.dirname(conf), chunk=64)
+            if key == "s!":
+                fs.fail[os.path.abspath(conf)] = ("w", errno.EACCES)
+                fs.fail[os.path.abspath(conf) + ".old"] = ("w", errno.EACCES)
+            else:
+                fs.fail[os.path.abspath(conf)] = ("write", errno.ENOSPC)
+            with simfs.Installed(fs, [simproc.core], copyfile=True):
+                a.action_save()
+            self.fault_counters = getattr(self, "fault_counters", None) or {}
+            for k2, v in fs.counters.items():
+                if k2.startswith("err@"):
+                    self.fault_counters[k2] = self.fault_counters.get(k2, 0) + v
         elif key == "o":
             a.action_load()
         elif key == "d":
